@@ -543,6 +543,7 @@ class Interp:
         self.current_target = None
         self.depth = 0
         self.max_depth = 40
+        self.cached_calls = set()     # lru_cache'd repo functions called on this path (their results are frozen)
         self.call_hooks = {}          # qualname -> python callable(interp, args, kwargs) replacing the function
         self.safety = True
         self.loop_invariants = {}
@@ -799,13 +800,16 @@ class Interp:
         if key in self.call_hooks:
             return self.call_hooks[key](self, f, args, kwargs)
         c = self.contracts.get(key)
-        if c is not None and key != self.current_target and not getattr(c, "inline", False) and not self.spec:
+        if (c is not None and key != self.current_target and not getattr(c, "inline", False) and not self.spec
+                and (c.result is not None or c.trusted or not c.verify)):
+            # (a contract without a result builder cannot stand for the call: the body is executed instead)
             return self.modular_call(f, c, args, kwargs)
         if key != self.current_target:
             self.inlined.add(key)
         res = self.exec_function(f, args, kwargs)
         if getattr(f, "cached", False):
             self.freeze(res)
+            self.cached_calls.add(f.key)
         return res
 
     def exec_function(self, f, args, kwargs, pre_bound=None):
@@ -863,7 +867,11 @@ class Interp:
         self.modular_calls.add(f.key)
         modenv = Env({}, None, f.module)
         bound = self.bind_args(f.node.args, args, kwargs, modenv, f.qualname)
-        return c.apply_at_call(self, f, bound)
+        res = c.apply_at_call(self, f, bound)
+        if getattr(f, "cached", False):
+            self.freeze(res)
+            self.cached_calls.add(f.key)
+        return res
 
     # -- attribute access --------------------------------------------------
     def getattr(self, obj, name):
